@@ -20,8 +20,12 @@ pub enum Call {
     OpenCreate(&'static str),
     /// append_file, handle kept by the thread
     OpenAppend(&'static str),
+    /// write to the kept handle and flush it (publishes), keeping it
+    WriteFlush(&'static [u8]),
     /// write to the kept handle and drop it
     WriteClose(&'static [u8]),
+    /// set_modification_time to a fixed instant
+    SetModified(&'static str),
     RemoveFile(&'static str),
     RemoveDir(&'static str),
     Exists(&'static str),
@@ -36,7 +40,8 @@ pub enum Call {
 pub enum Res {
     Unit,
     Bool(bool),
-    Meta(u8, u64),
+    /// type, length, modified == the fixed instant of SetModified
+    Meta(u8, u64, bool),
     List(Vec<String>),
     Bytes(Vec<u8>),
     Err(Kind),
@@ -46,6 +51,10 @@ pub enum Res {
 /// Path-level calls (`VfsPath::create_dir` = parent lookup + filesystem call, …) are not atomic
 /// and nobody promises that: a call that loses a race may fail in any of its steps, so their
 /// error kinds are not compared (tried: the unchanged tree then "fails" in thousands of ways).
+fn fixed_instant() -> std::time::SystemTime {
+    std::time::UNIX_EPOCH + std::time::Duration::from_secs(86_400 * 365)
+}
+
 fn ek(_e: vfs::VfsError) -> Res {
     Res::Err(Kind::Other)
 }
@@ -74,6 +83,13 @@ fn exec_call_fs(fs: &dyn vfs::FileSystem, c: &Call, handle: &mut Option<Box<dyn 
             }
             Err(e) => ekf(e),
         },
+        Call::WriteFlush(b) => match handle.as_mut() {
+            Some(h) => match h.write_all(b).and_then(|_| h.flush()) {
+                Ok(()) => Res::Unit,
+                Err(_) => Res::Err(Kind::Io),
+            },
+            None => Res::NoHandle,
+        },
         Call::WriteClose(b) => match handle.take() {
             Some(mut h) => {
                 let r = h.write_all(b);
@@ -86,10 +102,11 @@ fn exec_call_fs(fs: &dyn vfs::FileSystem, c: &Call, handle: &mut Option<Box<dyn 
             }
             None => Res::NoHandle,
         },
+        Call::SetModified(p) => fs.set_modification_time(p, fixed_instant()).map(|_| Res::Unit).unwrap_or_else(ekf),
         Call::RemoveFile(p) => fs.remove_file(p).map(|_| Res::Unit).unwrap_or_else(ekf),
         Call::RemoveDir(p) => fs.remove_dir(p).map(|_| Res::Unit).unwrap_or_else(ekf),
         Call::Exists(p) => fs.exists(p).map(Res::Bool).unwrap_or_else(ekf),
-        Call::Metadata(p) => fs.metadata(p).map(|m| Res::Meta(m.file_type as u8, m.len)).unwrap_or_else(ekf),
+        Call::Metadata(p) => fs.metadata(p).map(|m| Res::Meta(m.file_type as u8, m.len, m.modified == Some(fixed_instant()))).unwrap_or_else(ekf),
         Call::ReadDir(p) => match fs.read_dir(p) {
             Ok(it) => {
                 let mut v: Vec<String> = it.collect();
@@ -130,6 +147,14 @@ fn exec_call(root: &VfsPath, c: &Call, handle: &mut Option<Box<dyn vfs::SeekAndW
             }
             Err(e) => ek(e),
         },
+        Call::WriteFlush(b) => match handle.as_mut() {
+            Some(h) => match h.write_all(b).and_then(|_| h.flush()) {
+                Ok(()) => Res::Unit,
+                Err(_) => Res::Err(Kind::Io),
+            },
+            None => Res::NoHandle,
+        },
+        Call::SetModified(p) => at(p).set_modification_time(fixed_instant()).map(|_| Res::Unit).unwrap_or_else(ek),
         Call::WriteClose(b) => match handle.take() {
             Some(mut h) => {
                 // write, then close: the drop publishes the buffer under one lock acquisition (an
@@ -147,7 +172,7 @@ fn exec_call(root: &VfsPath, c: &Call, handle: &mut Option<Box<dyn vfs::SeekAndW
         Call::RemoveFile(p) => at(p).remove_file().map(|_| Res::Unit).unwrap_or_else(ek),
         Call::RemoveDir(p) => at(p).remove_dir().map(|_| Res::Unit).unwrap_or_else(ek),
         Call::Exists(p) => at(p).exists().map(Res::Bool).unwrap_or_else(ek),
-        Call::Metadata(p) => at(p).metadata().map(|m| Res::Meta(m.file_type as u8, m.len)).unwrap_or_else(ek),
+        Call::Metadata(p) => at(p).metadata().map(|m| Res::Meta(m.file_type as u8, m.len, m.modified == Some(fixed_instant()))).unwrap_or_else(ek),
         Call::ReadDir(p) => match at(p).read_dir() {
             Ok(it) => {
                 let mut v: Vec<String> = it.map(|c| c.as_str().to_string()).collect();
@@ -181,6 +206,15 @@ fn fs_key(b: &Built) -> Vec<u8> {
     let mut bytes = vec![];
     for base in &b.bases {
         snapshot(&base.raw, &probes).key_bytes(&mut bytes);
+        // which entries carry the instant written by SetModified
+        for p in &probes {
+            let set = base.raw.join(&p[1..]).ok().and_then(|x| x.metadata().ok()).map(|m| m.modified == Some(fixed_instant()));
+            bytes.push(match set {
+                None => 0,
+                Some(false) => 1,
+                Some(true) => 2,
+            });
+        }
     }
     bytes
 }
@@ -273,11 +307,17 @@ fn items(paths: &[&'static str], full: bool) -> Vec<Vec<Call>> {
         v.push(vec![Call::RemoveFile(p)]);
         v.push(vec![Call::RemoveDir(p)]);
         if full {
+            v.push(vec![Call::SetModified(p)]);
             v.push(vec![Call::Exists(p)]);
             v.push(vec![Call::Metadata(p)]);
             v.push(vec![Call::ReadDir(p)]);
             v.push(vec![Call::ReadAll(p)]);
         }
+    }
+    if full {
+        // a session that publishes twice (flush, then drop)
+        v.push(vec![Call::OpenAppend("/a/f"), Call::WriteFlush(b"y"), Call::WriteClose(b"z")]);
+        v.push(vec![Call::OpenCreate("/a/f"), Call::WriteFlush(b"y"), Call::WriteClose(b"z")]);
     }
     if !full {
         v.push(vec![Call::ReadDir("/a")]);
@@ -466,7 +506,9 @@ fn call_kind(c: &Call) -> String {
         Call::CreateDir(p) => format!("create_dir({})", p),
         Call::OpenCreate(p) => format!("create_file({})", p),
         Call::OpenAppend(p) => format!("append_file({})", p),
+        Call::WriteFlush(_) => "write+flush".into(),
         Call::WriteClose(_) => "write+close".into(),
+        Call::SetModified(p) => format!("set_modification_time({})", p),
         Call::RemoveFile(p) => format!("remove_file({})", p),
         Call::RemoveDir(p) => format!("remove_dir({})", p),
         Call::Exists(p) => format!("exists({})", p),
